@@ -483,7 +483,8 @@ def run(pm, ctx):
         okc = isinstance(c.ops[0], ast.LtE) and norm_src(c.left) == "X[:, self.features[node]]" and norm_src(c.comparators[0]) == "self.thresholds[node]"
         routes = {norm_src(s_.targets[0]): norm_src(s_.value) for s_ in ast.walk(pred) if isinstance(s_, ast.Assign) and isinstance(s_.targets[0], ast.Subscript)
                   and norm_src(s_.targets[0].value) == "predictions"}
-        comp = [s_ for s_ in ast.walk(pred) if isinstance(s_, ast.Assign) and norm_src(s_.value) == f"~{left_name}"]
+        comp = [s_ for s_ in ast.walk(pred) if isinstance(s_, ast.Assign) and norm_src(s_.value) in (f"~{left_name}", f"np.logical_not({left_name})", f"np.invert({left_name})",
+                                                                                                     f"{left_name} == False", f"~({left_name})")]
         right_name = norm_src(comp[0].targets[0]) if comp else None
         okr = routes.get(f"predictions[{left_name}]") == f"self.predict(X[{left_name}], self.children_left[node])" and right_name is not None \
             and routes.get(f"predictions[{right_name}]") == f"self.predict(X[{right_name}], self.children_right[node])"
